@@ -23,10 +23,12 @@ pub struct SchedProfile {
     pub fast_forward: u32,
     /// weight of the 'ping storm' step (reboot wait only): pings perpetually due while a request is outstanding
     pub ping_storm_w: u32,
+    /// chance that the consumer polls with alternating wakers (0 = never drawn)
+    pub switch_wakers: (u32, u32),
 }
 impl Default for SchedProfile {
     fn default() -> Self {
-        SchedProfile { steps: 40, max_requests: 6, drop_machine: true, hold_consumer: true, min_wait: (1, 2), offer: (2, 3), requests_w: 3, spurious_polls: true, fast_forward: 2, ping_storm_w: 0 }
+        SchedProfile { steps: 40, max_requests: 6, drop_machine: true, hold_consumer: true, min_wait: (1, 2), offer: (2, 3), requests_w: 3, spurious_polls: true, fast_forward: 2, ping_storm_w: 0, switch_wakers: (0, 1) }
     }
 }
 
@@ -94,6 +96,9 @@ pub fn gen_sched_script(t: &mut Tape, p: &SchedProfile) -> Script {
     }
     if t.chance(1, 8) {
         s.storage_init.push(("server_dictated_poll_interval".into(), SVal::I(*t.pick(&[600_000_000i64, 5_000_000, 86_400_000_000]))));
+    }
+    if p.switch_wakers.0 > 0 && t.chance(p.switch_wakers.0, p.switch_wakers.1) {
+        s.switch_wakers = true;
     }
     s
 }
